@@ -139,6 +139,16 @@ func (fr *FileReader) readNextBlock() (*Block, error) {
 	if err := blockHeader.Deserialize(headerBuf); err != nil {
 		return nil, err
 	}
+	// A block whose announced payload does not fit into the rest of the file is the torn tail of an
+	// interrupted append (or a damaged size field): everything before it is intact, so treat it as the
+	// end of the data. Checking before allocating also keeps a forged size from allocating gigabytes.
+	info, err := fr.file.Stat()
+	if err != nil {
+		return nil, err
+	}
+	if int64(blockHeader.CompressedSize) > info.Size()-(offset+BlockHeaderSize) {
+		return nil, io.EOF
+	}
 	// Read compressed data
 	compressedData := make([]byte, blockHeader.CompressedSize)
 	if _, err := io.ReadFull(fr.file, compressedData); err != nil {
